@@ -413,6 +413,96 @@ def run_long(ctx, pt):
     ctx.eq(K + '/fresh-object-after-%d-calls-in-the-process' % N, [(lambda r: (r[0], obs(r[1])))(ctx.attempt(call, o2, i)) for i in probe[:2]], [('ok', b) for b in base[:2]])
 
 
+# ---- a second call that runs in the middle of a first one -------------------------------------------------------------------
+
+def _pairs():
+    """(A, B): two calls on two different objects; B is run to completion at a chosen line of A"""
+    from crysp.sha import SHA1, SHA2, SHA3
+    from crysp.md import MD4, MD5
+    from crysp.blake import Blake, Blake2
+    from crysp.hmac import HMAC
+    from crysp.aes import AES
+    from crysp.des import DES
+    from crysp.threefish import Threefish
+    from crysp.salsa20 import Salsa20
+    from crysp.chacha import Chacha
+    from crysp.rc4 import RC4
+    from crysp import mode as Mo
+    import crysp.crc as C
+    a, b = b'first message', expander(70, 93)
+    return {
+        'MD5': (lambda: MD5()(a), lambda: MD5()(b)), 'MD4': (lambda: MD4()(a), lambda: MD4()(b)), 'SHA1': (lambda: SHA1(1)(a), lambda: SHA1(1)(b)),
+        'SHA2-256': (lambda: SHA2(256)(a), lambda: SHA2(256)(b)), 'SHA2-256/SHA2-512': (lambda: SHA2(256)(a), lambda: SHA2(512)(b)),
+        'SHA2-512/224': (lambda: SHA2(512, 224)(a), lambda: SHA2(512, 256)(b)), 'SHA3-256': (lambda: SHA3(256)(a), lambda: SHA3(256)(b)),
+        'Blake-256': (lambda: Blake(256)(a), lambda: Blake(256)(b, 5)), 'Blake2s': (lambda: Blake2(256)(a), lambda: Blake2(256)(b, outlen=20)),
+        'Blake2b/Blake2s': (lambda: Blake2(512)(a), lambda: Blake2(256)(b)), 'HMAC-MD5': (lambda: HMAC(MD5(), b'k1')(a), lambda: HMAC(MD5(), b'key two')(b)),
+        'AES': (lambda: AES(ramp(16)).enc(ramp(16, 3, 1)), lambda: AES(ramp(32, 5)).dec(ramp(16, 7, 2))), 'DES': (lambda: DES(ramp(8, 5, 1)).enc(ramp(8, 3, 1)), lambda: DES(ramp(8, 3, 9)).dec(ramp(8, 7, 2))),
+        'Threefish': (lambda: Threefish(ramp(32), ramp(16, 3)).enc(ramp(32, 5, 1)), lambda: Threefish(ramp(64, 3), ramp(16, 5)).enc(ramp(64, 7, 1))),
+        'Salsa20': (lambda: Salsa20(B1(ramp(32)), 8).enc(B1(ramp(8, 3, 1)), a), lambda: Salsa20(B1(ramp(16, 5)), 12).enc(B1(ramp(8, 5, 2)), b)),
+        'Chacha': (lambda: Chacha(B1(ramp(32)), 8).enc(B1(ramp(8, 3, 1)), a), lambda: Chacha(B1(ramp(16, 5)), 12).enc(B1(ramp(8, 5, 2)), b)),
+        'RC4': (lambda: RC4(b'key').enc(a), lambda: RC4(b'other').enc(b)), 'CBC-DES': (lambda: Mo.CBC(DES(ramp(8, 3, 1)), ramp(8, 9, 4)).enc(a), lambda: Mo.CBC(DES(ramp(8, 5, 2)), bytes(8)).enc(b)),
+        'CTR-AES': (lambda: Mo.CTR(AES(ramp(16)), ramp(16, 5, 250)).enc(a), lambda: Mo.CTR(AES(ramp(16, 3)), bytes(16)).enc(b)), 'crc32': (lambda: C.crc32(a), lambda: C.crc32_fix_pos(b, 3, 0xcafebabe)),
+    }
+
+
+def _run_with_intrusion(fa, fb, at):
+    """run fa(); when its `at`-th line event inside the library is reached, run fb() to completion (as another thread that
+    is scheduled there and runs until it is done would), then let fa() continue.  Returns (ra, rb, number of line events)."""
+    import sys, os
+    root = os.path.dirname(__import__('crysp').__file__)
+    state = {'n': 0, 'rb': None}
+
+    def tracer(frame, event, arg):
+        if not frame.f_code.co_filename.startswith(root):
+            return None
+        if event == 'line':
+            state['n'] += 1
+            if state['n'] == at:
+                sys.settrace(None)
+                try:
+                    state['rb'] = ('ok', obs(fb()))
+                except Exception as e:
+                    state['rb'] = ('exc', type(e).__name__)
+                sys.settrace(tracer)
+        return tracer
+    sys.settrace(tracer)
+    try:
+        try:
+            ra = ('ok', obs(fa()))
+        except Exception as e:
+            ra = ('exc', type(e).__name__)
+    finally:
+        sys.settrace(None)
+    return ra, state['rb'], state['n']
+
+
+def pts_intr(tier):
+    return [(name, d, tier) for name in sorted(_pairs()) for d in (0, 1)]
+
+
+def run_intr(ctx, pt):
+    """call B (another object) runs to completion in the middle of call A, at G evenly spaced line events of A inside the
+    library (G = 40, thorough 400; every line when A has fewer): schedules of two threads with at most one preemption, on a
+    grid of preemption points.  Both results equal the results of the calls made alone."""
+    name, d, tier = pt
+    fa, fb = _pairs()[name]
+    x, y, tag = ((fa, fb, 'B-inside-A'), (fb, fa, 'A-inside-B'))[d]
+    alone_x = pristine(lambda: ('ok', obs(x())))
+    alone_y = pristine(lambda: ('ok', obs(y())))
+    _, _, n = _run_with_intrusion(x, y, -1)
+    G = 400 if tier == 'thorough' else 40
+    pts = sorted({1 + (i * (n - 1)) // max(1, G - 1) for i in range(G)} | {1, 2, n}) if n > G else list(range(1, n + 1))
+    ctx.extra['preemption_points'] += len(pts)
+    ctx.extra['max_line_events_of_one_call'] = max(ctx.extra['max_line_events_of_one_call'], n)
+    for p in pts:
+        rx, ry, _ = _run_with_intrusion(x, y, p)
+        ctx.calls += 2
+        ctx.cmps += 1
+        if (rx, ry) != (alone_x, alone_y):
+            ctx.eq('C10/%s/second-call-running-in-the-middle-of-the-first/%s' % (name, tag), (rx, ry, 'at library line event %d of %d' % (p, n)), (alone_x, alone_y, 'at any point'))
+            break
+
+
 # ---- deep copies ---------------------------------------------------------------------------------------------------
 
 def pts_deepcopy(tier):
@@ -658,7 +748,9 @@ def run_firstuse(ctx, pt):
 
 
 def subchecks():
-    return [Sub('deep-copies', pts_deepcopy, run_deepcopy, engine='H', chunk=1,
+    return [Sub('nested-calls', pts_intr, run_intr, engine='H', exhaustive=False, chunk=1,
+                bound='20 pairs of one-shot calls on two different objects (same class other arguments, sibling sizes, cipher / mode / stream pairs): call B runs to completion at 40 (thorough 400) evenly spaced line events of call A inside the library (every line when A is shorter), and A inside B - two-thread schedules with one preemption on a grid of preemption points (a call has 400 to 220000 line events; the grid is a stated cap, not full line coverage); both results equal the calls made alone'),
+            Sub('deep-copies', pts_deepcopy, run_deepcopy, engine='H', chunk=1,
                 bound='every object kind of the histories subcheck (module instances excepted): a deep copy taken from a fresh object and after each of its first 6 events; up to 4 judged calls on the copy, on the original, on the copy again vs pristine answers'),
             Sub('constructor-argument-types', pts_ctor, run_ctor, engine='P',
                 bound='8 object kinds whose key / IV / tweak / nonce is handed to the constructor as bytearray or memoryview: three calls in a row equal the three calls of the object built from bytes (kinds that refuse the type are not judged)'),
